@@ -759,7 +759,7 @@ impl Check for C12
 	}
 	fn rule(&self) -> String
 	{
-		"(a) generated executable programs whose top-level declarations are randomly partitioned over 2-4 files; every item used from another file, and everything its interface mentions, becomes `pub`, and each file imports exactly the files it needs; the file list is compiled in up to 4 (quick) / all <= 24 (thorough) orders through one Compiler as src/main.rs does, linked and run; (b) the same with one needed `pub` removed, or one needed import removed (also when the imported file is still reachable transitively); (b2) EVERY combination of {constant, structure, word, function, function head} exported by leaf.pn x {top.pn imports only mid.pn (which imports leaf.pn), imports leaf.pn, imports both} x {mid.pn uses the item or not} x all 6 file orders, and import \"util.pn\" from a/ or b/ with same-named files in both directories x all 6 orders (exhaustive, 192 sets); (c) histories: 2-4 unrelated executable modules pushed through ONE Compiler in two orders, each also compiled alone. Oracle: (b2) transitive-only use rejected with E401/E402/E405 in every order, direct and diamond imports accepted and the linked program prints the expected values, the sibling file is the one imported; (a) accepted in every order and stdout/exit status equal the single-file program's interpreter result; (b) rejected with E401/E402/E405; (c) each module's IR text is byte-identical whether compiled first, last or alone. Non-trivial: at least one item crosses a file boundary; distinct by file contents.".into()
+		"(a) generated executable programs whose top-level declarations are randomly partitioned over 2-4 files; every item used from another file, and everything its interface mentions, becomes `pub`, and each file imports exactly the files it needs; the file list is compiled in up to 4 (quick) / all <= 24 (thorough) orders through one Compiler as src/main.rs does, linked and run; (b) the same with one needed `pub` removed, or one needed import removed (also when the imported file is still reachable transitively); (b2) EVERY combination of {constant, structure, word, function, function head} exported by leaf.pn x {top.pn imports only mid.pn (which imports leaf.pn), imports leaf.pn, imports both} x {mid.pn uses the item or not} x all 6 file orders, and import \"util.pn\" from a/ or b/ with same-named files in both directories x all 6 orders (exhaustive, 192 sets); (b3) 31 hand-written three-module programs x 6 file orders around features the generator lacks: print!, abort!() and panic!() in every assignment to the three modules, and an exported `extern fn` with a body and a view parameter defined in one module and called from two — accepted and behaving exactly like the single file made of the same declarations; (c) histories: 2-4 unrelated executable modules pushed through ONE Compiler in two orders, each also compiled alone. Oracle: (b2) transitive-only use rejected with E401/E402/E405 in every order, direct and diamond imports accepted and the linked program prints the expected values, the sibling file is the one imported; (a) accepted in every order and stdout/exit status equal the single-file program's interpreter result; (b) rejected with E401/E402/E405; (c) each module's IR text is byte-identical whether compiled first, last or alone. Non-trivial: at least one item crosses a file boundary; distinct by file contents.".into()
 	}
 	fn assumptions(&self) -> Vec<String>
 	{
